@@ -583,8 +583,12 @@ class CachingQPSol:
                 # Identify the linear term in the objective
                 c = ca.substitute(gf, x, ca.DM.zeros(x.sparsity()))
 
-                # Identify the quadratic term in the objective
-                H = 0.5 * ca.jacobian(gf, x, {"symmetric": True})
+                # Identify the quadratic term in the objective. Note that the
+                # conic solver minimizes 0.5 * x^T H x + c^T x.
+                H = ca.jacobian(gf, x, {"symmetric": True})
+
+                # Identify the constant term in the objective
+                self._f0 = ca.DM(ca.substitute(f, x, ca.DM.zeros(x.sparsity())))
 
                 if cache:
                     if not x.size1() == cache["A"].size2():
@@ -647,7 +651,7 @@ class CachingQPSol:
 
                 solver_out = self._solver(**self._solver_in)
 
-                solver_out["f"] = solver_out["cost"]
+                solver_out["f"] = solver_out["cost"] + self._f0
 
                 return solver_out
 
